@@ -749,7 +749,10 @@ def _sym_split(I, s, sep=None, maxsplit=-1):
                 if cur:
                     # literal text glued to the number unless the number is known to start with a blank
                     if not v.starts_with_blank(I):
-                        raise Unsupported("a formatted number directly follows non-blank text")
+                        # not provably separated: becomes the obligation "the field never fills its width" (decided by the solver)
+                        w_ = v.p["width"]
+                        raise MisalignedSlice(s, "field start", "preceding text", None, v, list(I.pc),
+                                              num_cmp("<", v.natural_len_cached(), w_) if w_ else False)
                     tokens.append(cur)
                     cur = []
                 cur.append(v.stripped())
